@@ -499,6 +499,11 @@ class OpWorld(World):
             tr = self.trace(o.name)
             if o.name == "observer" and self.harness is not None and getattr(self.harness, "in_handler", False):
                 self.lock_calls.append((method, [l.name for l in it.locks_held], self.harness.guard_now(it)))
+            if o.name in ("observer", "spec_out") and method in ("on_next", "on_error", "on_completed") and tr.terminal is None:
+                # one order for ALL call-outs of a step: what is handed downstream is also placed among the subscriptions,
+                # timers and notifications of windows / groups (a subscriber of the group must be subscribed before the
+                # duration derived from that group, ...)
+                self.struct["impl" if o.name == "observer" else "spec"].append(("down", method))
             if method == "on_next":
                 v = args[0]
                 self.events.append(("down", o.name, "on_next", v))
@@ -529,6 +534,11 @@ class OpWorld(World):
                     and (len(self.harness.c.sources) > 1 or getattr(self.harness.c, "late_subscribe", False))):
                 direct = bool(args) and isinstance(args[0], Opaque) and args[0].kind == "observer" and args[0].name == "observer"
                 self.struct["impl"].append(("sub-src", list(self.harness.c.sources).index(o.name), direct))
+            if ("term" not in o.attrs and self.harness is not None and getattr(self.harness, "phase", "") == "subscribe"
+                    and o.name in self.harness.c.sources and (len(self.harness.c.sources) > 1 or getattr(self.harness.c, "timed", False))):
+                # the order in which subscribe sets things up: sources that emit on subscription (or in the instant of the
+                # subscription) must find the timers set and the other sources subscribed as the spec says
+                self.struct["impl"].append(("sub-src", list(self.harness.c.sources).index(o.name), True))
             if "term" in o.attrs:
                 self.struct["impl"].append(("sub", o.attrs["term"]))
                 if self.harness is not None and getattr(self.harness, "in_handler", False):
@@ -1227,7 +1237,8 @@ class OpHarness:
             self.fail(ctx, oid + "/inner-subscriptions/order",
                       f"real code: {[e[0] for e in impl]}, spec: {[e[0] for e in spec]} "
                       f"(sub = subscribes an inner source, dispose-prev = unsubscribes the previous inner, timer = sets a timer, "
-                      f"cancel-timer = cancels a pending timer, to = notifies one window/group, each = notifies every open one)")
+                      f"cancel-timer = cancels a pending timer, to = notifies one window/group, each = notifies every open one, "
+                      f"down = hands a notification to the subscriber)")
             return False
         ok = True
         for a, b in zip(impl, spec):
@@ -1249,6 +1260,10 @@ class OpHarness:
                                   detail=f"real code: {z3.simplify(a[1])}, spec: {z3.simplify(b[1])}")
                 if a[3] is not None or b[3] is not None:
                     ok &= self.record(ctx, oid + f"/{what}/{a[2]}/payload", (a[3] == b[3]) if (a[3] is not None and b[3] is not None) else False)
+            elif a[0] == "down":
+                if a[1] != b[1]:
+                    self.fail(ctx, oid + "/call-outs/order", f"real code hands {a[1]} downstream where the spec hands {b[1]}")
+                    ok = False
             elif a[0] == "timer":
                 ok &= self.record(ctx, oid + "/timers/set-for-the-same-instant", a[1] == b[1],
                                   detail=f"real code: due {a[1]}, spec: due {b[1]}")
@@ -1541,6 +1556,7 @@ class OpHarness:
                 # loops that go on after delivering a terminal notification (delay's drain loop): the arbitrary iteration may
                 # start after that happened - the invariant says what holds then (`terminated`)
                 tr.terminal = (lc["may_terminate"],)
+                w.struct[side].append(("down", {"C": "on_completed", "E": "on_error"}[lc["may_terminate"]]))
         if each is not None:
             # the iterations so far notified some sequence of subjects (each with the declared notification)
             sv = ctx.fresh("sent", "seq").t
@@ -1659,7 +1675,17 @@ class OpHarness:
                         detail=f"subscribe assigns to the operator's parameter(s) {changed}: the next subscription sees the changed value")
         self.spec_call(it, s, "on_subscribe", [Opaque("observer", "spec_out")])
         self.compare_traces(ctx, f"{uid}/subscribe/out", w.trace("observer"), w.trace("spec_out"))
-        if getattr(c, "timed", False) or getattr(c, "subjects", False):
+        # sources subscribed by subscribe itself: the spec may say where (out.subscribe_source(i) in on_subscribe); a timed
+        # single-source spec that does not say subscribes its source LAST (after the timers it sets: a notification of the very
+        # instant of a timer comes second); a multi-source spec that does not say leaves the order open
+        spec_mentions = [e[1] for e in w.struct["spec"] if e[0] == "sub-src"]
+        if not spec_mentions:
+            if len(c.sources) == 1 and getattr(c, "timed", False) and not getattr(c, "late_subscribe", False):
+                if any(e[0] == "sub-src" for e in w.struct["impl"]):
+                    w.struct["spec"].append(("sub-src", 0, True))
+            else:
+                w.struct["impl"] = [e for e in w.struct["impl"] if e[0] != "sub-src"]
+        if getattr(c, "timed", False) or getattr(c, "subjects", False) or len(c.sources) > 1:
             self.cur_spec = s
             self.disp = disp
             self.compare_subscriptions(it, ctx, f"{uid}/subscribe", 0)
